@@ -7,6 +7,7 @@
   every rejection is a TypeError or ValueError; a missing required field is a TypeError.
 -/
 import TypedpyModel.Lemmas.Complete
+import TypedpyModel.Lemmas.Formats
 namespace Typedpy.C02
 open Typedpy
 
@@ -87,6 +88,86 @@ theorem immutableSet_reads_frozenset (O : Oracles) (f : FieldDecl) (sz : SizeOpt
   · rcases bindE_eq_ok h with ⟨ys, _, h2⟩
     split at h2 <;> simp at h2
     exact ⟨_, h2.symm⟩
+
+/-! ### the extension string fields
+
+`SizedString`, `IPV4`, `HostName`, `DateString`, `TimeString`, `JSONString` are `string` declarations of the model:
+`maxlen` is one more upper bound on the length, a format takes the pattern slot as a synthetic token.  For IPV4 and
+HostName the token is decided by the model itself (`ipv4Ok` / `hostNameOk`, Core/Formats.lean), and these functions
+accept exactly the documented languages (`ipv4Ok_iff`, `hostNameOk_iff`, Lemmas/Formats.lean). -/
+
+/-- the oracles decide the IPV4 / HostName tokens as the model's own format functions do -/
+def FormatOracles (O : Oracles) : Prop :=
+  ∀ s, O.reMatch ipv4Token s = ipv4Ok s ∧ O.reMatch hostNameToken s = hostNameOk s
+
+/-- the oracles the driver runs with (`fmtMatch` around the per-case table) are such oracles -/
+theorem fmtMatch_formatOracles (other : String → String → Bool) (hook : List (String × PyVal) → Bool) :
+    FormatOracles { reMatch := fmtMatch other, hookOk := hook } := by
+  intro s
+  constructor
+  · simp [fmtMatch]
+  · have : (hostNameToken == ipv4Token) = false := by decide
+    simp [fmtMatch, this]
+
+/-- a `string` declaration decides exactly: a `str` within the length bounds that the pattern / format admits; what is
+    stored is the string itself; a non-`str` is a TypeError and every other rejection a ValueError -/
+theorem string_field_exact (O : Oracles) (lo hi : Option Nat) (pat : Option String) (v : PyVal) :
+    (∀ w, validate O (.string lo hi pat) v = .ok w ↔
+      ∃ s, v = .str s ∧ w = .str s ∧ geLen lo s.length = true ∧ leLen hi s.length = true ∧ patOk O pat s = true)
+    ∧ (validate O (.string lo hi pat) v = .error .typeErr ↔ ∀ s, v ≠ .str s)
+    ∧ (∀ e, validate O (.string lo hi pat) v = .error e → e = .typeErr ∨ e = .valueErr) := by
+  cases v <;> simp [validate, vString]
+  rename_i s
+  cases h1 : leLen hi s.length <;> cases h2 : geLen lo s.length <;> cases pat <;>
+    simp [vPattern, patOk] <;> (try (intro w; constructor <;> intro h <;> simp_all))
+  all_goals
+    rename_i p
+    cases h3 : O.reMatch p s <;> simp
+    all_goals (try (intro w; constructor <;> intro h <;> simp_all))
+
+/-- **IPV4**: under format oracles the field accepts exactly the strings of the documented language - four
+    components of 1..3 ASCII decimal digits, each 0..255, joined by single dots (no trailing newline, no other digits) -
+    within the String length bounds, and stores them unchanged -/
+theorem ipv4_field_exact (O : Oracles) (hO : FormatOracles O) (lo hi : Option Nat) (v w : PyVal) :
+    validate O (.string lo hi (some ipv4Token)) v = .ok w ↔
+      ∃ s, v = .str s ∧ w = .str s ∧ geLen lo s.length = true ∧ leLen hi s.length = true ∧ IsIPv4 s := by
+  rw [(string_field_exact O lo hi (some ipv4Token) v).1 w]
+  simp only [patOk, (hO _).1, ipv4Ok_iff]
+
+/-- **HostName**: exactly the RFC 952/1123 host names - labels of 1..63 ASCII letters / digits / hyphens without a
+    hyphen at either end, joined by single dots, 2..253 characters in all -/
+theorem hostname_field_exact (O : Oracles) (hO : FormatOracles O) (lo hi : Option Nat) (v w : PyVal) :
+    validate O (.string lo hi (some hostNameToken)) v = .ok w ↔
+      ∃ s, v = .str s ∧ w = .str s ∧ geLen lo s.length = true ∧ leLen hi s.length = true ∧ IsHostName s := by
+  rw [(string_field_exact O lo hi (some hostNameToken) v).1 w]
+  simp only [patOk, (hO _).2, hostNameOk_iff]
+
+/-- **SizedString**(maxlen = m, maxLength = hi) is the `string` declaration with the tighter bound: whatever it stores
+    is a `str` no longer than `m` and no longer than `hi` -/
+theorem sized_string_bound (O : Oracles) (lo : Option Nat) (hi m : Nat) (pat : Option String) (v w : PyVal)
+    (h : validate O (.string lo (some (min hi m)) pat) v = .ok w) :
+    ∃ s, w = .str s ∧ s.length ≤ m ∧ s.length ≤ hi := by
+  rcases ((string_field_exact O lo (some (min hi m)) pat v).1 w).1 h with ⟨s, _, hw, _, hle, _⟩
+  refine ⟨s, hw, ?_, ?_⟩ <;> (simp [leLen] at hle; omega)
+
+/-- non-vacuity of the format theorems: the Lean functions on concrete strings (valid, leading zeros, 256, a missing
+    component, a trailing newline, an empty label, a hyphen at a label edge, a single character) -/
+theorem format_example :
+    ipv4Ok "1.2.3.4" = true ∧ ipv4Ok "001.02.3.255" = true ∧ ipv4Ok "256.1.1.1" = false ∧ ipv4Ok "1.2.3" = false
+    ∧ ipv4Ok "1.2.3.4\n" = false ∧ ipv4Ok "1..3.4" = false ∧ ipv4Ok "1.2.3.4.5" = false ∧ ipv4Ok "" = false
+    ∧ hostNameOk "example.com" = true ∧ hostNameOk "a-b.c9" = true ∧ hostNameOk "a..b" = false
+    ∧ hostNameOk "a-.b" = false ∧ hostNameOk "-a" = false ∧ hostNameOk "a.b\n" = false ∧ hostNameOk "a" = false
+    ∧ hostNameOk "a_b" = false
+    ∧ (match validate { reMatch := fmtMatch fun _ _ => false } (.string none (some 8) (some ipv4Token)) (.str "1.2.3.4") with
+        | .ok (.str s) => s == "1.2.3.4" | _ => false) = true
+    ∧ (match validate { reMatch := fmtMatch fun _ _ => false } (.string none (some 8) (some ipv4Token)) (.str "10.20.30.40") with
+        | .error .valueErr => true | _ => false) = true
+    ∧ (match validate { reMatch := fmtMatch fun _ _ => false } (.seqOf .list (.string none none (some hostNameToken)) {})
+          (.list [.str "a.b", .str "a..b"]) with
+        | .error .valueErr => true | _ => false) = true
+    ∧ (match validate { reMatch := fmtMatch fun _ _ => false } (.string none none (some ipv4Token)) (.int 5) with
+        | .error .typeErr => true | _ => false) = true := by
+  decide
 
 /-! ### non-vacuity: a nested, constrained declaration on which the decision goes both ways -/
 
